@@ -2,6 +2,7 @@ package props
 
 import (
 	"go/token"
+	"go/types"
 	"strings"
 
 	"golang.org/x/tools/go/ssa"
@@ -81,6 +82,33 @@ func borderFieldOf(fn *ssa.Function) (field string, op token.Token) {
 // closureUnder maps the outcome of a branch on pred(order) to the closure created in that branch.
 func closuresByBranch(fn *ssa.Function, predName string) map[bool]*ssa.Function {
 	out := map[bool]*ssa.Function{}
+	isPred := func(x ssa.Value) bool {
+		cl, ok := x.(ssa.CallInstruction)
+		return ok && CallName(cl) == predName
+	}
+	// the comparator handed to a call (sort.Slice, sort.Search, ...): one closure per outcome of the predicate,
+	// whether each branch makes its own call or the branches only choose the closure for one shared call
+	for _, call := range CallsIn(fn, nil) {
+		for _, arg := range call.Common().Args {
+			if _, isFunc := arg.Type().Underlying().(*types.Signature); !isFunc {
+				continue
+			}
+			for _, o := range Current.Origins(arg, FactsAtInstr(call.(ssa.Instruction)), 2, nil) {
+				mc, ok := o.Val.(*ssa.MakeClosure)
+				if !ok {
+					continue
+				}
+				if cf, _ := mc.Fn.(*ssa.Function); cf != nil {
+					if v, found := BoolFact(o.Facts, isPred); found {
+						out[v] = cf
+					}
+				}
+			}
+		}
+	}
+	if len(out) > 0 {
+		return out
+	}
 	for _, b := range fn.Blocks {
 		for _, in := range b.Instrs {
 			mc, ok := in.(*ssa.MakeClosure)
@@ -88,10 +116,7 @@ func closuresByBranch(fn *ssa.Function, predName string) map[bool]*ssa.Function 
 				continue
 			}
 			cf, _ := mc.Fn.(*ssa.Function)
-			v, found := BoolFact(FactsAt(b), func(x ssa.Value) bool {
-				cl, ok := x.(ssa.CallInstruction)
-				return ok && CallName(cl) == predName
-			})
+			v, found := BoolFact(FactsAt(b), isPred)
 			if found && cf != nil {
 				out[v] = cf
 			}
